@@ -1133,7 +1133,8 @@ def check_search_model(ctx, prog):
     every start offset 0..length: the result is Python's find / rfind on the text, and no read passes the buffer."""
     import scansim, itertools
     cases = (('asl::String::indexOf', '(char,int)const', 'c'), ('asl::String::indexOf', '(const char *,int)const', 's'),
-             ('asl::String::lastIndexOf', '(char)const', 'rc'), ('asl::String::lastIndexOf', '(const char *)const', 'rs'))
+             ('asl::String::lastIndexOf', '(char)const', 'rc'), ('asl::String::lastIndexOf', '(const char *)const', 'rs'),
+             ('asl::String::startsWith', '(const char *)const', 'sw'), ('asl::String::endsWith', '(const char *)const', 'ew'))
     n = 0
     for name, sig, kind in cases:
         fs = [g for g in prog.fn(name, sig) if g.get('body')]
@@ -1144,7 +1145,7 @@ def check_search_model(ctx, prog):
         role = '%s%s:result of the byte-string model, reads inside the text' % (f['n'], sig)
         bad = und = None
         runs = 0
-        needles = ('a', 'b', 'x') if kind in ('c', 'rc') else ('a', 'ab', 'ba', 'x', 'bx')
+        needles = ('a', 'b', 'x') if kind in ('c', 'rc') else ('a', 'ab', 'ba', 'x', 'bx') if kind in ('s', 'rs') else ('', 'a', 'b', 'ab', 'ba', 'abab', 'bbbbb', 'aaaaaaaaaaaaaaaaaaaa')
         for L in range(0, 5):
             for t in itertools.product('ab', repeat=L):
                 text = ''.join(t)
@@ -1152,9 +1153,9 @@ def check_search_model(ctx, prog):
                     for i0 in (range(0, L + 1) if kind in ('c', 's') else (None,)):
                         for stale in ('xb', 'ax'):
                             bufs = {'T': [ord(c) for c in text] + [0] + [ord(c) for c in stale]}
-                            if kind in ('s', 'rs'):
+                            if kind in ('s', 'rs', 'sw', 'ew'):
                                 bufs['N'] = [ord(c) for c in nd] + [0]
-                            pp = {f['params'][0]['id']: ('P', 'N', 0)} if kind in ('s', 'rs') else {}
+                            pp = {f['params'][0]['id']: ('P', 'N', 0)} if kind in ('s', 'rs', 'sw', 'ew') else {}
                             ip = {f['params'][0]['id']: ord(nd)} if kind in ('c', 'rc') else {}
                             if i0 is not None:
                                 ip[f['params'][1]['id']] = i0
@@ -1169,7 +1170,8 @@ def check_search_model(ctx, prog):
                             except (scansim.Unsupported, TypeError, KeyError, IndexError, ValueError) as u:
                                 und = str(u)
                                 break
-                            want = text.find(nd, i0) if i0 is not None else text.rfind(nd)
+                            want = text.find(nd, i0) if i0 is not None else text.rfind(nd) if kind in ('rc', 'rs') else int(text.startswith(nd)) if kind == 'sw' else int(text.endswith(nd))
+                            got = int(got) if kind in ('sw', 'ew') and isinstance(got, (int, bool)) else got
                             if got != want:
                                 bad = '%s returns %s, the model gives %d (length %d): bytes behind the terminator take part in the search' % (call, got, want, L)
                                 break
